@@ -87,14 +87,26 @@ func vc12Gen(seeds []c12h.Seed, rng *vh.Rng, thorough bool) []c12h.Input {
 		}
 		for _, slot := range vc12Slots(s) {
 			ins = append(ins, c12h.Input{Entry: "get", Label: "valid", Data: s.Data, Aux: []uint64{slot}})
-			ins = append(ins, c12h.MutateFields("get", s, vc12Fields, nil, []uint64{slot})...)
+			ins = append(ins, vc12SmallCap(c12h.MutateFields("get", s, vc12Fields, nil, []uint64{slot}))...)
 		}
-		ins = append(ins, c12h.MutateFields("fromfile", s, vc12Fields, nil, nil)...)
+		ins = append(ins, vc12SmallCap(c12h.MutateFields("fromfile", s, vc12Fields, nil, nil))...)
 		ins = append(ins, c12h.RandomMutations("frombytes", s, rng, nrand, 46, nil, nil)...)
 		ins = append(ins, c12h.RandomMutations("get", s, rng, nrand/3, 46, nil, []uint64{s.Nums[0] + 1})...)
 	}
 	ins = append(ins, c12h.Junk("frombytes", rng, 200, magic)...)
 	return ins
+}
+
+// the huge capacities are exercised through FromBytes; the other entries keep the ones that load
+func vc12SmallCap(ins []c12h.Input) []c12h.Input {
+	out := ins[:0]
+	for _, in := range ins {
+		if len(in.Data) >= 46 && c12h.GetLE(in.Data, 38, 8) > 1<<16 {
+			continue
+		}
+		out = append(out, in)
+	}
+	return out
 }
 
 func vc12Exec(in *c12h.Input) c12h.Obs {
@@ -137,7 +149,7 @@ func vc12Witnesses(seeds []c12h.Seed) map[string]c12h.Input {
 	}
 	return map[string]c12h.Input{
 		"g_bt_capacity": {Entry: "frombytes", Label: "witness", Data: mut(1 << 62)},
-		"g_bt_readfull": {Entry: "frombytes", Label: "witness", Data: append([]byte(nil), s.Data[:17]...)}, // start field cut after 3 bytes
+		"g_bt_readfull": {Entry: "frombytes", Label: "witness", Data: append([]byte(nil), s.Data[:len(s.Data)-2]...)}, // last value cut after 2 bytes
 		"g_bt_get":      {Entry: "get", Label: "witness", Data: mut(3), Aux: []uint64{s.Nums[0] + 5}},
 	}
 }
@@ -177,6 +189,12 @@ func TestVerif_C12(t *testing.T) {
 		Name: "blocktime",
 		Rule: "blocktimeindex.FromBytes / FromFile / Index.Get on mutated valid files: no panic, allocation <= 16*len+256KiB, no hang; outcome class and decoded fields = Coq model",
 		Seeds: vc12Seeds, Gen: vc12Gen, Exec: vc12Exec, Budget: vc12Budget, Witnesses: vc12Witnesses,
+		FlagOf: func(name string, r *c12h.Result, def bool) bool {
+			if name == "g_bt_readfull" { // a file whose last value is cut: io.ReadFull reports it, a bare Read pads it with zeros
+				return r.Class == "error"
+			}
+			return def
+		},
 		CoqImports: []string{"YF.C12_Check"}, CoqType: "bt_case", CoqChecker: vc12Flags, CoqCase: vc12CoqCase, MaxCoq: 1200,
 	})
 }
